@@ -44,37 +44,41 @@ P = {
     "coq_targets": ["Properties/C05.vo", "Run/Eval_C05.vo"],
     "theorems_module": "Properties.C05",
     "theorems": ["C05_accept_sound", "C05_demands_unfold", "C05_accept_complete", "C05_authenticate_iff_spec",
-                 "C05_F3_refuted", "C05_pinned_iff_spec", "C05_F1_pinned_refuted", "C05_F2_pinned_refuted", "C05_subject_from_verified_claims",
+                 "C05_F3_refuted", "C05_F5_refuted", "C05_pinned_iff_spec", "C05_F1_pinned_refuted", "C05_F2_pinned_refuted", "C05_subject_from_verified_claims",
                  "C05_unsigned_rejected", "C05_modified_or_foreign_token_rejected", "C05_alg_confusion_rejected",
-                 "C05_default_algorithms", "C05_merge_precedence", "C05_no_nil_matcher", "C05_exact_scopes",
-                 "C05_hierarchic_scopes", "C05_wildcard_scopes", "C05_nonvacuous",
+                 "C05_merge_precedence", "C05_algorithm_tables", "C05_claim_decoding", "C05_scope_matching",
+                 "C05_accepted_scopes_satisfied", "C05_nonvacuous",
                  "C05_cache_history_stateless", "C05_judged_statelessly_unfold", "C05_cache_history_spec", "C05_F4_refuted",
                  "C05_cache_fixed_history_spec", "C05_cache_transparent", "C05_cache_examples"],
     "streams": [{
         "name": "tokens", "pkg": "./internal/rules/mechanisms/authenticators", "test": "TestVerifC05",
         "overlay": {"internal/rules/mechanisms/authenticators/zz_verif_c05_test.go": "c05/c05_test.go"},
         "eval_module": "Run.Eval_C05", "check_term": "check true true",
-        "n_quick": 1500, "n_thorough": 40000, "findings": {1: "C05-F1", 2: "C05-F2", 3: "C05-F3"},
+        "n_quick": 1500, "n_thorough": 40000, "findings": {1: "C05-F1", 2: "C05-F2", 3: "C05-F3", 5: "C05-F5"},
     }, {
         "name": "keycache", "pkg": "./internal/rules/mechanisms/authenticators", "test": "TestVerifC05Cache",
         "overlay": {"internal/rules/mechanisms/authenticators/zz_verif_c05_test.go": "c05/c05_test.go"},
         "eval_module": "Run.Eval_C05", "check_term": "check_hist true true false",
-        "n_quick": 500, "n_thorough": 12000, "findings": {1: "C05-F1", 2: "C05-F2", 3: "C05-F3", 4: "C05-F4"}, "shard": 150,
+        "n_quick": 500, "n_thorough": 12000, "findings": {1: "C05-F1", 2: "C05-F2", 3: "C05-F3", 4: "C05-F4", 5: "C05-F5"}, "shard": 150,
     }],
     "rule": "a jwt authenticator created by the real type registry from a generated configuration (issuers, audience, scopes "
             "with exact/hierarchic/wildcard strategy, allowed_algorithms, validity_leeway incl. sub-second and negative, "
             "validate_jwk, subject id member) and, in 40% of the cases, reconfigured on the rule level (WithConfig) x a key set "
             "(jwks_endpoint, or in 18% metadata_endpoint whose document names the issuer and the jwks_uri) "
             "of 0-4 JWKs served by a local httptest JWKS endpoint (RSA-2048, P-256/384/521, Ed25519, oct keys; declared alg "
-            "present/absent/not fitting; duplicate and empty kids; x5c chains valid / foreign CA / expired / wrong key usage; "
+            "present/absent/not fitting; duplicate and empty kids; x5c chains of one or two certificates: valid (leaf, leaf+root, "
+            "leaf+needed intermediate) / foreign CA / foreign root shipped in the chain / intermediate missing or foreign / "
+            "expired / wrong key usage; "
             "endpoint up/refusing/5xx/garbage) x a token minted with go-jose (RS/PS/ES/EdDSA/HS, kid right/absent/wrong; "
             "iss/aud/scp/scope/exp/nbf/iat around the boundaries now +- leeway +- 2 s, <= 0, beyond int64, fractional, wrong "
             "types; payload not an object) and mutated in 35% of the cases (signature byte flip / empty / foreign, payload or "
             "header replaced after signing, alg:none spellings, HS* keyed with the bytes of a published public key, attacker key "
             "embedded as `jwk` header, structural "
             "damage, random character replacement, non-canonical base64) sent in header, query or body; 55% of the cases are "
-            "repaired to be valid but for one or two perturbations. Observation = subject id + whether the attributes equal "
-            "the sent payload, or the error class by errors.Is. Non-trivial = the token parsed and the decision was taken in "
+            "repaired to be valid but for one or two perturbations, and 22% of those get a NEAR MISS of a configured issuer / "
+            "audience / required scope (case, trailing slash or blank-like character, prefix, extension, partial-segment "
+            "wildcard) instead of the value. Observation = subject id + whether the attributes equal "
+            "the sent payload, or the error class by errors.Is (recorded; compared only as rejected vs broken). Non-trivial = the token parsed and the decision was taken in "
             "key selection, verifyTokenWithKey, Claims.Validate or subject creation (by the error text's code site, used for "
             "the histogram only); distinct by hash of the generated description (relative times). Second stream (keycache): "
             "histories of 2-4 requests against ONE authenticator (and rule-level copies with their own cache_ttl / algorithms) "
@@ -82,7 +86,10 @@ P = {
             "jwks_endpoint url templated with {{ .TokenIssuer }} in 85% (else one url for all issuers), 2-3 trusted tenants "
             "whose key sets share kids for different keys (sometimes the same key, duplicate kids), key sets rotating and "
             "endpoints failing between the requests; tokens signed with the tenant's own key, with the key ANOTHER tenant "
-            "publishes under the same kid, with the rotated-out key, or an unpublished one, with and without kid; "
+            "publishes under the same kid, with the rotated-out key, or an unpublished one, with and without kid; in 35% of the "
+            "histories keys carry x5c chains (valid and invalid) and in 26% a second mechanism over the same endpoint and cache "
+            "with validate_jwk: false serves part of the requests; one corpus history lets two real seconds pass before a just-"
+            "expired token is presented to the long-lived authenticator; "
             "non-trivial = some request looks up a (url, kid) that an earlier request of the history filled",
     "anchors": ["internal/rules/mechanisms/authenticators/jwt_authenticator.go",
                 "internal/rules/mechanisms/authenticators/supported_algorithms.go",
@@ -111,7 +118,8 @@ P = {
                 "sub-second leeways are generated so that the nanosecond-precise iat check does not depend on the sub-second clock",
                 "subject id templates are plain member names (gjson paths are not modelled); the attributes template is the default",
                 "key cache (second stream): the cache is modelled as a map (rendered url, kid) -> key that never expires within a "
-                "history (entry expiry / TTL arithmetic is C10's subject), keys carry no certificates there, the endpoint hash "
+                "history (entry expiry / TTL arithmetic is C10's subject), certificates about to expire (which getCacheTTL refuses "
+                "to cache) are not generated there, mechanisms sharing the cache differ only in validate_jwk (not in trust_store), the endpoint hash "
                 "component of the cache key is constant per authenticator and left out; the memory cache, SHA-256 and the JSON "
                 "round trip of the cached JWK behave as observed"],
     "level_text": "Proof (kernel-checked, no axioms) about a faithful model of jwt_authenticator.go (Execute, WithConfig, verifyToken, "
@@ -126,19 +134,31 @@ P = {
                   "against one authenticator with its JWK cache (templated key-set URL over the unverified issuer, key sets "
                   "changing in between) every answer equals the cache-less answer against the key set that is or was published at "
                   "the request's own rendered URL, the present one when the token has no kid or the cache is off - a cached key "
-                  "is never reused for another url or kid (C05_cache_history_stateless/_spec/_transparent). Two deviations found "
+                  "is never reused for another url or kid (C05_cache_history_stateless/_spec/_transparent), for histories whose "
+                  "requests validate JWK certificates alike or on which the open finding C05-F4 does not show; with the proposed "
+                  "repair of C05-F4 for all histories (C05_cache_fixed_history_spec). Claim decoding and the three scope matching "
+                  "strategies are proved equal to declarative relations stated in the specification (C05_claim_decoding, "
+                  "C05_scope_matching). Two deviations found "
                   "by the model (exp <= 0 never expired; nbf/iat >= 2^63 wrapped to 'not set') were repaired by fix: commits "
                   "a3a89b7 and f16c3cc; the theorem is about the repaired code, the former behaviour is kept as "
-                  "C05_pinned_iff_spec / C05_F1_pinned_refuted / C05_F2_pinned_refuted; the one guard left is the exotic C05-F3 "
-                  "(exp = -62135596800, Go's zero time, still counts as absent). The model is tied to the code by running "
+                  "C05_pinned_iff_spec / C05_F1_pinned_refuted / C05_F2_pinned_refuted. Open findings, each with guard, "
+                  "refutation witness and corpus replay: C05-F3 (exp = -62135596800, Go's zero time, still counts as absent), "
+                  "C05-F4 (a cached JWK is reused without validation by a mechanism that validates JWK certificates after a laxer "
+                  "one sharing endpoint and cache stored it; fixes/C05-F4.diff), C05-F5 (no issuers configured + metadata without "
+                  "issuer: a token without iss is accepted; fixes/C05-F5.diff). The model is tied to the code by running "
                   "~1500 (quick) / 40000 (thorough) generated and mutated tokens and ~500 / 12000 request histories with a real "
                   "memory cache per run through the real authenticator against a local JWKS server.",
     "level_note": "Partial by construction: signature verification, JSON/JWS parsing and certificate validation are oracles (trusted "
                   "base); the theorem is about the decision logic around them. Error kinds are compared as classes by errors.Is "
-                  "(argument / authentication [+assertion | +scope] / communication / internal), so the order of the assertions "
-                  "is only visible where the class differs. Cache entry expiry, metadata_endpoint discovery with templates, custom "
+                  "(argument / authentication [+assertion | +scope] / communication / internal) but are only recorded: the "
+                  "correspondence compares the created subject, 'rejected' or 'broken (panic / no answer)', because the statement "
+                  "only says 'rejected without a subject' (error kinds are C04's and C12's subject). 'Any modification of a valid "
+                  "token is rejected' is a theorem only in the form 'a token no published key verifies is rejected'; that a "
+                  "modification makes the signature fail is the cryptographic assumption. 'Attributes come from the verified "
+                  "claims' is checked on the Go side (attributes deep-equal the sent payload) and has no theorem (the model has one "
+                  "claims record per token, the statement would be true by construction, as 'subject id from the claims' is). Cache entry expiry, metadata_endpoint discovery with templates, custom "
                   "jwt_source and subject "
-                  "attribute templates are not exercised (metadata_endpoint with a fixed URL is). Open finding C05-F3 is printed as "
+                  "attribute templates are not exercised (metadata_endpoint with a fixed URL is). Open findings C05-F3, C05-F4, C05-F5 are printed as "
                   "KNOWN-FINDING on every run; C05-F1 and C05-F2 are fixed (reverting either commit is reported as VIOLATION).",
     "extra_coverage": site_coverage,
     "assumptions": ["sane_clock: the clock lies after 1970 and before the int64 horizon by more than the leeway",
